@@ -62,6 +62,60 @@ fn iterables(thorough: bool) -> Vec<(String, Vec<Stmt>, Expr, bool)> {
         );
         v.push((format!("user iterator max={} early={}", n, early), vec![cls], invoke(var("Counter"), "new", vec![num(n as f64)]), false));
     }
+    // a user-defined iterator whose iter() starts over, and a user-defined collection whose iter()
+    // makes a new cursor object each time: iter() is not the identity for either
+    let restart = class_stmt(
+        "Restart",
+        Some("Iter"),
+        None,
+        vec![
+            method(FnKind::Ctor, "new", &["max"], vec![expr_stmt(set(Expr::SelfRef, "i", num(0.0))), expr_stmt(set(Expr::SelfRef, "max", var("max")))]),
+            method(FnKind::Method, "iter", &[], vec![expr_stmt(set(Expr::SelfRef, "i", num(0.0))), ret(Expr::SelfRef)]),
+            method(
+                FnKind::Method,
+                "next",
+                &[],
+                vec![
+                    st(StmtKind::If(bin(BinOp::Ge, get(Expr::SelfRef, "i"), get(Expr::SelfRef, "max")), vec![ret(invoke(var("StopIter"), "new", vec![]))], None)),
+                    expr_stmt(Expr::CompoundSet(Box::new(Expr::SelfRef), "i".into(), BinOp::Add, Box::new(num(1.0)))),
+                    ret(bin(BinOp::Mul, get(Expr::SelfRef, "i"), num(10.0))),
+                ],
+            ),
+        ],
+    );
+    v.push(("user restartable iterator max=3".to_string(), vec![restart], invoke(var("Restart"), "new", vec![num(3.0)]), false));
+    let cursor = class_stmt(
+        "BagCursor",
+        Some("Iter"),
+        None,
+        vec![
+            method(FnKind::Ctor, "new", &["items"], vec![expr_stmt(set(Expr::SelfRef, "items", var("items"))), expr_stmt(set(Expr::SelfRef, "i", num(0.0)))]),
+            method(FnKind::Method, "iter", &[], vec![ret(Expr::SelfRef)]),
+            method(
+                FnKind::Method,
+                "next",
+                &[],
+                vec![
+                    st(StmtKind::If(bin(BinOp::Ge, get(Expr::SelfRef, "i"), invoke(get(Expr::SelfRef, "items"), "len", vec![])), vec![ret(invoke(var("StopIter"), "new", vec![]))], None)),
+                    expr_stmt(Expr::CompoundSet(Box::new(Expr::SelfRef), "i".into(), BinOp::Add, Box::new(num(1.0)))),
+                    ret(index(get(Expr::SelfRef, "items"), bin(BinOp::Sub, get(Expr::SelfRef, "i"), num(1.0)))),
+                ],
+            ),
+        ],
+    );
+    let bag = class_stmt(
+        "Bag",
+        Some("Iter"),
+        None,
+        vec![
+            method(FnKind::Ctor, "new", &["items"], vec![expr_stmt(set(Expr::SelfRef, "items", var("items")))]),
+            method(FnKind::Method, "iter", &[], vec![ret(invoke(var("BagCursor"), "new", vec![get(Expr::SelfRef, "items")]))]),
+        ],
+    );
+    for len in [0usize, 3] {
+        let items: Vec<Expr> = (0..len).map(|i| num((i as f64 + 1.0) * 10.0)).collect();
+        v.push((format!("user collection len={}", len), vec![cursor.clone(), bag.clone()], invoke(var("Bag"), "new", vec![Expr::VecLit(items)]), false));
+    }
     v
 }
 
@@ -148,9 +202,13 @@ fn i3(thorough: bool) -> Vec<Case> {
         }
         let cbs = callbacks(is_str);
         let adapters = ["map", "filter"];
+        // user-defined iterables offer map/filter/collect/reduce themselves: called on the result of
+        // iter() and directly on the object
+        let starts: Vec<Expr> = if desc.starts_with("user") { vec![invoke(it.clone(), "iter", vec![]), it.clone()] } else { vec![invoke(it.clone(), "iter", vec![])] };
+        for start in &starts {
         for a1 in adapters {
             for (_, c1) in &cbs {
-                let base = invoke(invoke(it.clone(), "iter", vec![]), a1, vec![c1.clone()]);
+                let base = invoke(start.clone(), a1, vec![c1.clone()]);
                 // depth 1: collect, for, reduce
                 let mut main = pre.clone();
                 main.push(var_stmt("calls", num(0.0)));
@@ -176,6 +234,25 @@ fn i3(thorough: bool) -> Vec<Case> {
                         }
                     }
                 }
+            }
+        }
+        }
+        if desc.starts_with("user") {
+            // collect / reduce directly on the object, twice: the second pass sees what the first left
+            let mut main = pre.clone();
+            main.push(var_stmt("obj", it.clone()));
+            main.push(print_stmt(invoke(var("obj"), "collect", vec![])));
+            main.push(print_stmt(invoke(invoke(var("obj"), "filter", vec![cbs[2].1.clone()]), "collect", vec![])));
+            main.push(print_stmt(invoke(invoke(var("obj"), "map", vec![cbs[1].1.clone()]), "collect", vec![])));
+            main.push(print_stmt(invoke(var("obj"), "reduce", vec![lambda_expr(&["acc", "e"], bin(BinOp::Add, var("acc"), var("e"))), num(0.0)])));
+            out.push(Case::new("I3_user_object_reused", main));
+            // a loop left early, then an adapter over the same object
+            for a in adapters {
+                let mut main = pre.clone();
+                main.push(var_stmt("obj", it.clone()));
+                main.push(st(StmtKind::For("x".into(), var("obj"), vec![print_stmt(var("x")), st(StmtKind::Break)])));
+                main.push(print_stmt(invoke(invoke(var("obj"), a, vec![cbs[0].1.clone()]), "collect", vec![])));
+                out.push(Case::new("I3_user_object_after_break", main));
             }
         }
         // reduce
@@ -272,7 +349,7 @@ pub fn run(ctx: &Ctx) -> Report {
     mcheck::fill_report(
         &mut report,
         &stats,
-        "I1: a for loop over every vec/tuple of length 0-3, every range b..e with b,e in [-2,3], every string of up to 2/3 characters over a 1-4-byte alphabet, and a user-defined iterator (normal, early stop); I2: break/continue/return at each element position, nested loops over one iterable, one shared iterator; I3: every map/filter chain up to depth 2/3 with callbacks {identity, transform, predicate, always false, throwing on the second call}, reduce, collect, bad callbacks; I4: non-iterables, broken protocols, StopIter subclass, exhausted iterators; I5: push/pop/set of a vec at each position during its own iteration. non-trivial = at least two lines or an error.",
+        "I1: a for loop over every vec/tuple of length 0-3, every range b..e with b,e in [-2,3], every string of up to 2/3 characters over a 1-4-byte alphabet, and user-defined iterables (an iterator: normal, early stop; an iterator whose iter() starts over; a collection whose iter() makes a new cursor object); I2: break/continue/return at each element position, nested loops over one iterable, one shared iterator; I3: every map/filter chain up to depth 2/3 with callbacks {identity, transform, predicate, always false, throwing on the second call}, reduce, collect, bad callbacks - on user-defined iterables both through iter() and directly on the object, on a reused object and after a loop left by break; I4: non-iterables, broken protocols, StopIter subclass, exhausted iterators; I5: push/pop/set of a vec at each position during its own iteration. non-trivial = at least two lines or an error.",
         json!({"sequence_length": 3, "string_chars": if thorough { 3 } else { 2 }, "adapter_depth": if thorough { 3 } else { 2 }}),
     );
     report.assumptions = vec!["vec iteration is by cursor index into the live vec; `for` stops at an instance whose class is exactly StopIter (Appendix A)".into()];
